@@ -1,7 +1,44 @@
-"""Scenario replays through the real binary for Engine B candidates (placeholder: filled in below)."""
+"""Scenario replays through the real binary for Engine B candidates.
+
+A candidate produced by a MIR-level VC says "the code no longer has the shape the lemma needs".  Before it is
+reported, the real binary (built from /repo's current tree) is run on the property's scenario scripts:
+/verif/findings/<PID>_*.sh (recorded counter-workspaces of earlier findings) and /verif/scenarios/<PID>_*.sh
+(generated workspaces with an oracle for the property).  A script exits 0 when the property holds on its
+workspace.  Only a failing script makes the candidate a VIOLATION; otherwise the check exits 2 (inconclusive)
+and prints the candidate."""
+import glob
 import os
+import subprocess
+
+from . import native, overlay as ov
+
+
+def scripts_for(pid):
+    out = []
+    for d in ("findings", "scenarios"):
+        out += sorted(glob.glob(os.path.join(ov.VERIF, d, "%s_*.sh" % pid)))
+    return out
 
 
 def replay_for(pid, v, work, log):
-    return {"reproduced": False, "name": v.get("name"), "path": None,
-            "why": "no scenario reproduced a violation of %s through the real binary" % pid, "tags": []}
+    res = {"reproduced": False, "name": v.get("name"), "path": None, "why": "", "tags": []}
+    try:
+        binary = native.build_binary(work, log)
+    except Exception as e:
+        res["why"] = "native build failed: %s" % str(e)[:300]
+        return res
+    ran = 0
+    for s in scripts_for(pid):
+        ran += 1
+        try:
+            p = subprocess.run(["bash", s, binary], capture_output=True, text=True, timeout=600)
+        except subprocess.TimeoutExpired:
+            continue
+        log("    scenario %-50s exit=%d %s" % (os.path.basename(s), p.returncode, (p.stdout.strip().split("\n") or [""])[-1][:120]))
+        if p.returncode != 0:
+            res.update(reproduced=True, path=s, what="%s: %s" % (os.path.basename(s), (p.stdout + p.stderr).strip()[-300:]),
+                       tags=[os.path.basename(s)])
+            return res
+    cands = "; ".join(c.get("what", "") for c in v.get("candidates", [])[:3])
+    res["why"] = "%d scenario script(s) ran, none violated %s through the real binary; candidate: %s" % (ran, pid, cands[:300])
+    return res
